@@ -37,6 +37,9 @@ CORPUS = [
     "name c\nversion 1.0\ninclude \"lib.xbb\"\n\nstr s = \"txt\"\nbool b = False\nGate(s, b, vals=[1, 2.5, \"a\"], e=[]) | 3\nDgate({alpha}, {beta}*2) | 1\n",
     "name d\nversion 1.0\n\nint array p0 =\n    1, 2\nfloat array W[2, 2] =\n    {w}\nGate(p0[1], (1+2)*3/4 - 5) | 0\nMeasureHomodyne(phi=0.1, select=q1) | [0]\n",
     "name e\nversion 1.0\ntarget 2.x\n\nVac | 0\n",
+    # several constructs in one place: template parameters inside list-valued keyword arguments inside a loop body, registers
+    # and functions in keyword lists of a Measure operation, options of a type line with lists
+    "name f\nversion 1.0\ntype tdm (shifts=[1, 2], names=[\"a\"])\n\nfor int m in [0, 1]\n    Op(a=[{p}, 1, 2*{q}], b={q}) | m\n    MeasureHomodyne(select=[{p}, 0.1], phi=sin(q0)) | [m, 2]\nOp({p}, k=[1, {r}]) | 0\n",
 ]
 SUBST = ["NAME", "INT", "FLOAT", "COMMA", "NEWLINE", "LBRAC", "RBRAC", "ASSIGN", "APPLY", "LSQBRAC", "RSQBRAC", "PLUS", "STR", "TAB", "FOR", "TYPE_FLOAT", "ANY", "COLON",
          "LBRACE", "PI", "TIMES", "PROGNAME", "REGREF", "MEASURE", "DEVICE", "PERIOD", "QUOTE", "SEQUENCE", "BOOL", "TYPE_ARRAY", "IN", "PWR"]
